@@ -32,6 +32,9 @@ CLAIMED = {
  "C03": ("other", "SSA dominance (strip ≺ serialise on the same value) + total-loop shape + addressing-kind value flow + who-may-call rule",
    "Decides necessary structural conditions on all paths: prepare strips bto/bcc from the activity on every success return after having read them; Deliver sends that same value; the transport is reachable only through deliverToRecipients; both strip functions clear both kinds on the value and on every element of object in a loop that cannot be left early (the handler's recursively, dominating Serialize of the same value); in wrapInCreate/normalizeRecipients no value of one addressing kind is appended to a property of another kind, membership guards consult the receiver's own set, and fresh properties are installed. The payload bytes are not examined.",
    "Relies on the generated Set…(nil) removing the member (C01/C12). Value flow over-approximates. Trusted: go/types, go/ssa, checker engines E1/E2/E4.", "DESIGN.md §4 C03"),
+ "C04": ("other", "SSA must-facts (incl. flag implication through phis) + syntax-level override-table check + value flow + total-loop shape + error discipline",
+   "Decides necessary structural conditions on all paths of the federating default callbacks: writes in like/announce/add/remove only where Owns(key) is (true,nil) for the key locked/read/written; the override table maps each func(ctx, vocab.T) to exactly the default for T; the wrapped application callback of the right name runs last, after the default effect succeeded, and its result is returned; Follow stores/delivers nothing unless OnFollow≠DoNothing and an object equals this inbox's actor (monotone search), updates followers only for auto-accept, builds Accept/Reject per setting with actor/object/to from the right sources and new ids before delivery; documented insertion ends; Create fetches IRIs; every object is processed; fresh properties are installed.",
+   "Exact stored values are not decided; Database.Owns is the application's. Trusted: go/types, go/ssa, go/ast, checker engines E1/E2/E4/E9.", "DESIGN.md §4 C04"),
 }
 NOT_YET = {}
 ALL = ["C%02d" % i for i in range(1, 21)]
